@@ -265,6 +265,43 @@ static void layer_b(bool big)
                 emit_verify(pub, z2, r, s, 0);
             }
     S.stat("fixed_nonce_signs", nsg);
+    // ---- valid signatures with a CHOSEN s (the low-S boundary (n-1)/2 | (n+1)/2, tiny s, s+n): z := s*k - r*d mod n.
+    // The scalar arithmetic below only constructs inputs; validity is decided by the Python reference.
+    {
+        uint64_t nb = 0;
+        for (auto& d : {small(1), patbytes(32, 1), add_small(N_HEX, -1)})
+            for (auto& k : {small(2), patbytes(32, 2)}) {
+                FixedNonce fn{k.data()};
+                secp256k1_ecdsa_signature sig0;
+                unsigned char c64[64];
+                Bytes any = small(5);
+                if (!secp256k1_ecdsa_sign(g_ctx, &sig0, any.data(), d.data(), fixed_nonce_fn, &fn)) continue;
+                secp256k1_ecdsa_signature_serialize_compact(g_ctx, c64, &sig0);
+                Bytes r(c64, c64 + 32);
+                CKey ck; ck.Set(d.begin(), d.end(), true);
+                CPubKey p = ck.GetPubKey();
+                Bytes pub(p.begin(), p.end());
+                for (auto& starget : {B[4], B[5], small(1), small(2), small(3), add_small(N_HEX, -1), add_small(N_HEX, -2)}) {
+                    Bytes sk = starget, rd = r;
+                    if (!secp256k1_ec_seckey_tweak_mul(g_ctx, sk.data(), k.data())) continue;  // s*k
+                    if (!secp256k1_ec_seckey_tweak_mul(g_ctx, rd.data(), d.data())) continue;  // r*d
+                    if (!secp256k1_ec_seckey_negate(g_ctx, rd.data())) continue;
+                    if (!secp256k1_ec_seckey_tweak_add(g_ctx, sk.data(), rd.data())) continue; // z = s*k - r*d
+                    const Bytes z = sk;
+                    secp256k1_ecdsa_signature sig;
+                    int ok = secp256k1_ecdsa_sign(g_ctx, &sig, z.data(), d.data(), fixed_nonce_fn, &fn);
+                    if (ok) secp256k1_ecdsa_signature_serialize_compact(g_ctx, c64, &sig);
+                    S.line(J({"SG", hx(d), hx(z), hx(k), u(ok), ok ? vx::hex(c64, 32) : "-", ok ? vx::hex(c64 + 32, 32) : "-"}));
+                    Bytes nb32 = unhex(N_HEX), twin(32);
+                    int borrow = 0;
+                    for (int i = 31; i >= 0; i--) { int v = (int)nb32[i] - starget[i] - borrow; borrow = v < 0; twin[i] = (unsigned char)(v & 0xff); }
+                    for (int variant : {0, 1, 3}) { emit_verify(pub, z, r, starget, variant); emit_verify(pub, z, r, twin, variant); }
+                    if (starget[30] == 0 && starget[0] == 0) emit_verify(pub, z, r, add_small(N_HEX, starget[31]), 0); // s + n: same residue, out of range
+                    nb++;
+                }
+            }
+        S.stat("chosen_s_signatures", nb);
+    }
     S.flush();
     // ---- ECDSA verification on the (r,s) grid (range checks at 0, n, p, 2^256-1)
     {
